@@ -330,7 +330,7 @@ func TestC34(t *testing.T) {
 			yield(c)
 		}
 		// seeded random bigger bucket states: up to 6 blocks over 4 source ids
-		n := vt.Pick(300, 5000)
+		n := vt.Pick(300, 3000)
 		for i := 0; i < n; i++ {
 			nb := 1 + rnd.Intn(6)
 			blocks := make([]any, 0, nb)
